@@ -1,3 +1,501 @@
+import Bch.Proofs.BloomTxInst
+/-
+C10 — transaction filtering finds every relevant transaction, in any block order.
+
+Model: `Bch/Model/BloomTx.lean`.  All theorems are for an abstract filter `O : FilterOps F` with the
+laws `L : LawfulOn O G` (see `Bch/Proofs/BloomTx.lean`):
+  `add_mono  : O.test f y = true → O.test (O.add f x) y = true`,
+  `add_flags : O.flags (O.add f x) = O.flags f`,
+  `add_test  : G f → O.test (O.add f x) x = true` and `good_add : G f → G (O.add f x)`
+where `G` is a set of "good" filter states (`LawfulFilter O` is the case `G` = everything, and
+`LawfulFilter.on` converts).  The theorems that use `add_test` carry `G f` for the loaded filter.
+The relativisation is what makes the real filter an instance: C09 proves `bloom_add_mono` for every
+filter but `bloom_add_matches` only for a loaded filter of at most 36000 bytes (an unloaded filter
+matches nothing even after `add`).  `bloom_lawful : LawfulOn bloomOps bloomGood`
+(`Bch/Proofs/BloomTxInst.lean`, from the C09 lemmas) is that instance; the section "the real bloom
+filter" below instantiates the main theorems.  The toy filter at the end shows non-vacuity.
+
+Notation: `Le O f f'` is `∀ x, O.test f x = true → O.test f' x = true`;
+`addAll O f xs = xs.foldl O.add f`.
+-/
 namespace Bch.Props.C10
-theorem placeholder : True := trivial
+open Bch Bch.Model.BloomTx Bch.Proofs.BloomTx
+
+variable {F : Type} {O : FilterOps F} {G : F → Prop}
+
+/-! ### Monotonicity -/
+
+/-- `matchTxAndUpdate` only grows the filter. -/
+theorem C10_match_mono (L : LawfulOn O G) (f : F) (tx : Tx) :
+    ∀ x, O.test f x = true → O.test (matchTxAndUpdate O f tx).1 x = true :=
+  matchTx_le L f tx
+
+/-- The repaired block scan only grows the filter (any fuel, any `same`), and never changes the flag. -/
+theorem C10_scan_mono (L : LawfulOn O G) (same : F → F → Bool) (fuel : Nat) (block : Array Tx) (f : F) :
+    (∀ x, O.test f x = true → O.test (GetMatchedIndices O same fuel block f).filter x = true) ∧
+      O.flags (GetMatchedIndices O same fuel block f).filter = O.flags f :=
+  ⟨(scan_ext L same fuel block f).filter, (scan_ext L same fuel block f).flags⟩
+
+/-- The reference block scan only grows the filter. -/
+theorem C10_scanRef_mono (L : LawfulOn O G) (fuel : Nat) (block : Array Tx) (f : F) :
+    (∀ x, O.test f x = true → O.test (GetMatchedIndicesRef O fuel block f).filter x = true) ∧
+      O.flags (GetMatchedIndicesRef O fuel block f).filter = O.flags f :=
+  ⟨(scanRef_ext L fuel block f).filter, (scanRef_ext L fuel block f).flags⟩
+
+/-! ### One transaction -/
+
+/-- **C10_match_iff** (full): the verdict is exactly BIP37 relevance against the filter *as loaded*:
+    txid, or a data push of a parsable output script, or a spent outpoint, or a data push of a
+    parsable input script.  The evolving filter does not change the verdict: the first output that
+    matches the evolving filter matches the unmodified one (nothing was inserted before it), later
+    outputs can only turn an already-true verdict true again, and inputs are examined only when
+    nothing matched, hence nothing was inserted.  (The feared corner — an output that matches only
+    because an earlier output's outpoint was inserted — cannot falsify the iff: that earlier output
+    matched `f` itself, so the right-hand side already holds.) -/
+theorem C10_match_iff (L : LawfulOn O G) (f : F) (tx : Tx) :
+    (matchTxAndUpdate O f tx).2 = true ↔
+      (O.test f tx.id = true ∨
+       (∃ out ∈ tx.outs, ∃ ps, out.pushes = some ps ∧ ∃ d ∈ ps, O.test f d = true) ∨
+       (∃ inp ∈ tx.ins, O.test f (outPointBytes inp.prevHash inp.prevIdx) = true ∨
+          ∃ ps, inp.pushes = some ps ∧ ∃ d ∈ ps, O.test f d = true)) :=
+  matchTx_iff L f tx
+
+/-- `Relevant O f tx` (used below) is by definition the right-hand side of `C10_match_iff`. -/
+theorem C10_relevant_def (f : F) (tx : Tx) :
+    Relevant O f tx ↔
+      (O.test f tx.id = true ∨
+       (∃ out ∈ tx.outs, ∃ ps, out.pushes = some ps ∧ ∃ d ∈ ps, O.test f d = true) ∨
+       (∃ inp ∈ tx.ins, O.test f (outPointBytes inp.prevHash inp.prevIdx) = true ∨
+          ∃ ps, inp.pushes = some ps ∧ ∃ d ∈ ps, O.test f d = true)) :=
+  Iff.rfl
+
+/-- Relevance is monotone in the filter. -/
+theorem C10_relevant_mono {f f' : F} (h : ∀ x, O.test f x = true → O.test f' x = true) (tx : Tx) :
+    Relevant O f tx → Relevant O f' tx :=
+  Relevant.mono h
+
+/-- **C10_update** (full), fold form: the resulting filter is `f` plus, in output order, the
+    outpoints `(tx.id, i)` for `i ∈ updIdxs O f tx`. -/
+theorem C10_update (f : F) (tx : Tx) :
+    (matchTxAndUpdate O f tx).1 = ((updIdxs O f tx).map (outPointBytes tx.id)).foldl O.add f :=
+  matchTx_filter O f tx
+
+/-- **C10_update**, which outputs: `i ∈ updIdxs O f tx` exactly when output `i` exists, is eligible
+    under the update flag of the loaded filter (`eligible flags o = (flags == 1 || (flags == 2 &&
+    o.isPubKeyOrMultisig))`: 1 all, 2 only pay-to-pubkey/multisig, otherwise none) and has a data
+    push matching the filter *at its turn* (`filterAt O f tx i` = state after the first `i` outputs). -/
+theorem C10_update_mem (L : LawfulOn O G) (f : F) (tx : Tx) (i : Nat) :
+    i ∈ updIdxs O f tx ↔
+      ∃ o, tx.outs[i]? = some o ∧
+        (O.flags f = 1 ∨ (O.flags f = 2 ∧ o.isPubKeyOrMultisig = true)) ∧
+        ∃ ps, o.pushes = some ps ∧ ∃ d ∈ ps, O.test (filterAt O f tx i) d = true := by
+  rw [mem_updIdxs L]
+  constructor
+  · rintro ⟨o, ho, he, hp⟩
+    refine ⟨o, ho, ?_, (pushHit_iff O _ _).1 hp⟩
+    simpa [eligible] using he
+  · rintro ⟨o, ho, he, hp⟩
+    refine ⟨o, ho, ?_, (pushHit_iff O _ _).2 hp⟩
+    simpa [eligible] using he
+
+/-- the filter at output `i`'s turn is the loaded filter plus the outpoints inserted for earlier
+    outputs of the same transaction (and nothing else) -/
+theorem C10_filterAt (f : F) (tx : Tx) (i : Nat) :
+    filterAt O f tx i =
+      ((updIdxs O f { tx with outs := tx.outs.take i }).map (outPointBytes tx.id)).foldl O.add f := by
+  unfold filterAt updIdxs
+  rw [scanOuts_fst]; rfl
+
+/-- **C10_update**, in particular: every eligible output with a push matching the *loaded* filter has
+    its outpoint inserted, and the resulting filter matches that outpoint. -/
+theorem C10_update_loaded (L : LawfulOn O G) (f : F) (hG : G f) (tx : Tx) (i : Nat) (o : TxOut)
+    (ho : tx.outs[i]? = some o)
+    (he : O.flags f = 1 ∨ (O.flags f = 2 ∧ o.isPubKeyOrMultisig = true))
+    (ps : List Bytes) (hps : o.pushes = some ps) (d : Bytes) (hd : d ∈ ps) (ht : O.test f d = true) :
+    i ∈ updIdxs O f tx ∧ O.test (matchTxAndUpdate O f tx).1 (outPointBytes tx.id i) = true := by
+  have hi : i ∈ updIdxs O f tx :=
+    (C10_update_mem L f tx i).2 ⟨o, ho, he, ps, hps, d, hd, le_filterAt L f tx i d ht⟩
+  refine ⟨hi, ?_⟩
+  rw [matchTx_filter]
+  exact test_addAll_of_mem L _ hG _ _ (List.mem_map_of_mem hi)
+
+/-- **C10_update**, flag "none" (anything but 1 and 2): the filter is returned unchanged. -/
+theorem C10_update_none (L : LawfulOn O G) (f : F) (tx : Tx) (h1 : O.flags f ≠ 1) (h2 : O.flags f ≠ 2) :
+    (matchTxAndUpdate O f tx).1 = f := by
+  have : updIdxs O f tx = [] := by
+    apply List.eq_nil_iff_forall_not_mem.2
+    intro i hi
+    obtain ⟨o, _, he, _⟩ := (C10_update_mem L f tx i).1 hi
+    rcases he with he | ⟨he, _⟩
+    · exact h1 he
+    · exact h2 he
+  rw [matchTx_filter, this]; rfl
+
+/-- A verdict `false` inserts nothing. -/
+theorem C10_update_unmatched (L : LawfulOn O G) (f : F) (tx : Tx)
+    (h : (matchTxAndUpdate O f tx).2 = false) : (matchTxAndUpdate O f tx).1 = f :=
+  matchTx_false_filter L f tx h
+
+/-! ### Block scan: soundness and completeness -/
+
+/-- **C10_block_sound** (full; holds for every fuel, even when the scan ran out of fuel, and for
+    every `same`): every reported index is a transaction of the block that is relevant (in the
+    sense of `C10_match_iff`) to the *final* filter. -/
+theorem C10_block_sound (L : LawfulOn O G) (same : F → F → Bool) (fuel : Nat) (block : Array Tx) (f : F)
+    (i : Nat) (hi : i ∈ (GetMatchedIndices O same fuel block f).matched) :
+    i < block.size ∧ ∃ tx, block[i]? = some tx ∧
+      Relevant O (GetMatchedIndices O same fuel block f).filter tx := by
+  obtain ⟨tx, hb, hr⟩ := scan_sound L same fuel block f i hi
+  refine ⟨?_, tx, hb, hr⟩
+  rcases Nat.lt_or_ge i block.size with h | h
+  · exact h
+  · rw [Array.getElem?_eq_none h] at hb; cases hb
+
+/-- The same for the reference scan. -/
+theorem C10_blockRef_sound (L : LawfulOn O G) (fuel : Nat) (block : Array Tx) (f : F)
+    (i : Nat) (hi : i ∈ (GetMatchedIndicesRef O fuel block f).matched) :
+    i < block.size ∧ ∃ tx, block[i]? = some tx ∧
+      Relevant O (GetMatchedIndicesRef O fuel block f).filter tx := by
+  obtain ⟨tx, hb, hr⟩ := scanRef_sound L fuel block f i hi
+  refine ⟨?_, tx, hb, hr⟩
+  rcases Nat.lt_or_ge i block.size with h | h
+  · exact h
+  · rw [Array.getElem?_eq_none h] at hb; cases hb
+
+/-- **C10_block_complete (a)** (full): every transaction relevant to the *loaded* filter is reported,
+    whatever its position.  Needs only one unit of fuel (weaker than `outOfFuel = false`: with fuel
+    0 every check fails immediately) and no assumption on `same`: a transaction is never skipped at
+    its own turn because it has no `checkedAt` entry yet. -/
+theorem C10_block_complete_a (L : LawfulOn O G) (same : F → F → Bool) (fuel : Nat) (hfuel : 0 < fuel)
+    (block : Array Tx) (f : F) (i : Nat) (tx : Tx) (hb : block[i]? = some tx) (hr : Relevant O f tx) :
+    i ∈ (GetMatchedIndices O same fuel block f).matched := by
+  obtain ⟨fuel, rfl⟩ : ∃ k, fuel = k + 1 := ⟨fuel - 1, by omega⟩
+  exact scan_complete_a L same fuel block f i tx hb hr
+
+/-- **C10_block_complete (a)** under the uniform hypothesis `outOfFuel = false`. -/
+theorem C10_block_complete_a' (L : LawfulOn O G) (same : F → F → Bool) (fuel : Nat)
+    (block : Array Tx) (f : F) (hf : (GetMatchedIndices O same fuel block f).outOfFuel = false)
+    (i : Nat) (tx : Tx) (hb : block[i]? = some tx) (hr : Relevant O f tx) :
+    i ∈ (GetMatchedIndices O same fuel block f).matched := by
+  refine C10_block_complete_a L same fuel ?_ block f i tx hb hr
+  rcases Nat.eq_zero_or_pos fuel with h0 | h0
+  · subst h0
+    obtain ⟨_, h⟩ := scanLoop_inv block
+      (fun inputs i s => checkFilterTx O same block inputs 0 i s)
+      (fun n _ s => n = 0 ∨ s.outOfFuel = true)
+      (fun _ _ _ _ _ _ => Or.inr rfl)
+      block.size 0 [] { filter := f, matched := [] } (by omega) (Or.inl rfl)
+    have hi : i < block.size := by
+      rcases Nat.lt_or_ge i block.size with h | h
+      · exact h
+      · rw [Array.getElem?_eq_none h] at hb; cases hb
+    rcases h with h | h
+    · omega
+    · have h' : (GetMatchedIndices O same 0 block f).outOfFuel = true := h
+      rw [h'] at hf; cases hf
+  · exact h0
+
+/-- **C10_block_order**: sound/complete hold for *every* block, hence for every permutation of a
+    block: whatever the order `block'` in which the transactions of `block` are listed, each
+    transaction relevant to the loaded filter is reported at its position in `block'`.
+    (Full permutation-*invariance* of the reported set is false, see the `txX` example below.) -/
+theorem C10_block_order (L : LawfulOn O G) (same : F → F → Bool) (fuel : Nat) (hfuel : 0 < fuel)
+    (block block' : Array Tx) (hperm : block'.toList.Perm block.toList) (f : F)
+    (tx : Tx) (htx : tx ∈ block.toList) (hr : Relevant O f tx) :
+    ∃ i, block'[i]? = some tx ∧ i ∈ (GetMatchedIndices O same fuel block' f).matched := by
+  have h1 : tx ∈ block'.toList := hperm.mem_iff.2 htx
+  obtain ⟨i, hi, hget⟩ := List.getElem_of_mem h1
+  have hb : block'[i]? = some tx := by
+    rw [← Array.getElem?_toList, List.getElem?_eq_getElem hi, hget]
+  exact ⟨i, hb, C10_block_complete_a L same fuel hfuel block' f i tx hb hr⟩
+
+/-- **C10_block_complete (b)** (full, given that the scan did not run out of fuel and that `same`
+    is sound): "every outpoint inserted at any moment of the scan has all its in-block spenders
+    reported, whatever their position".  The final filter is the loaded filter plus a list `ins` of
+    outpoints `(id, idx)` — the insertions in the order they happened — such that
+    * each inserted outpoint belongs to an eligible output, with a push matching the final filter,
+      of a *reported* transaction of the block;
+    * **every transaction of the block with an input spending an inserted outpoint is reported**;
+    * the list contains the outpoint of every eligible output, with a push matching the *loaded*
+      filter, of every reported transaction. -/
+theorem C10_block_complete_b (L : LawfulOn O G) (same : F → F → Bool) (hs : SameSound O same)
+    (fuel : Nat) (block : Array Tx) (f : F) (hG : G f)
+    (hf : (GetMatchedIndices O same fuel block f).outOfFuel = false) :
+    ∃ ins : List (Bytes × Nat),
+      (GetMatchedIndices O same fuel block f).filter
+        = (ins.map (fun e => outPointBytes e.1 e.2)).foldl O.add f ∧
+      (∀ e ∈ ins,
+        (∃ j t, j ∈ (GetMatchedIndices O same fuel block f).matched ∧ block[j]? = some t ∧ t.id = e.1 ∧
+          ∃ o, t.outs[e.2]? = some o ∧
+            (O.flags f = 1 ∨ (O.flags f = 2 ∧ o.isPubKeyOrMultisig = true)) ∧
+            ∃ ps, o.pushes = some ps ∧
+              ∃ d ∈ ps, O.test (GetMatchedIndices O same fuel block f).filter d = true) ∧
+        (∀ k u, block[k]? = some u → (∃ inp ∈ u.ins, inp.prevHash = e.1 ∧ inp.prevIdx = e.2) →
+          k ∈ (GetMatchedIndices O same fuel block f).matched)) ∧
+      (∀ j ∈ (GetMatchedIndices O same fuel block f).matched, ∀ t i o, block[j]? = some t →
+        t.outs[i]? = some o → (O.flags f = 1 ∨ (O.flags f = 2 ∧ o.isPubKeyOrMultisig = true)) →
+        (∃ ps, o.pushes = some ps ∧ ∃ d ∈ ps, O.test f d = true) → (t.id, i) ∈ ins) := by
+  obtain ⟨ins, e, p, c⟩ := scan_complete_b L hs fuel block f hG hf
+  have hflags := (scan_ext L same fuel block f).flags
+  refine ⟨ins, e, ?_, ?_⟩
+  · intro x hx
+    obtain ⟨⟨j, t, hj, hb, hid, o, ho, he, hp⟩, hobl⟩ := p x hx
+    refine ⟨⟨j, t, hj, hb, hid, o, ho, ?_, (pushHit_iff O _ _).1 hp⟩, ?_⟩
+    · rw [hflags] at he; simpa [eligible] using he
+    · intro k u hu hsp
+      have hk : k < block.size := by
+        rcases Nat.lt_or_ge k block.size with h | h
+        · exact h
+        · rw [Array.getElem?_eq_none h] at hu; cases hu
+      exact hobl k hk u hu hsp
+  · intro j hj t i o hb ho he hp
+    rcases c j hj with h | h
+    · cases h
+    · refine h t i o hb ho ?_ ((pushHit_iff O _ _).2 hp)
+      rw [hflags]; simpa [eligible] using he
+
+/-- **C10_block_complete (b)**, the CTOR corollary: if a reported transaction `t` has an eligible
+    output `i` with a push matching the loaded filter, then every transaction of the block that
+    spends `(t.id, i)` is reported — before or after `t` in the block. -/
+theorem C10_block_complete_spenders (L : LawfulOn O G) (same : F → F → Bool) (hs : SameSound O same)
+    (fuel : Nat) (block : Array Tx) (f : F) (hG : G f)
+    (hf : (GetMatchedIndices O same fuel block f).outOfFuel = false)
+    (j : Nat) (hj : j ∈ (GetMatchedIndices O same fuel block f).matched) (t : Tx) (hb : block[j]? = some t)
+    (i : Nat) (o : TxOut) (ho : t.outs[i]? = some o)
+    (he : O.flags f = 1 ∨ (O.flags f = 2 ∧ o.isPubKeyOrMultisig = true))
+    (hp : ∃ ps, o.pushes = some ps ∧ ∃ d ∈ ps, O.test f d = true)
+    (k : Nat) (u : Tx) (hu : block[k]? = some u)
+    (hsp : ∃ inp ∈ u.ins, inp.prevHash = t.id ∧ inp.prevIdx = i) :
+    k ∈ (GetMatchedIndices O same fuel block f).matched := by
+  obtain ⟨ins, _, p, c⟩ := C10_block_complete_b L same hs fuel block f hG hf
+  exact (p _ (c j hj t i o hb ho he hp)).2 k u hu hsp
+
+/-- Fuel: for a block whose spend graph is acyclic (`Acyclic block rank bound`: a rank on ids that
+    increases from spent to spender and is below `bound`; `bound = block.size` is always possible for
+    an acyclic block) fuel `bound` suffices, for the repaired and for the reference scan. -/
+theorem C10_fuel_suffices (same : F → F → Bool) (block : Array Tx) (rank : Bytes → Nat) (bound : Nat)
+    (hA : Acyclic block rank bound) (fuel : Nat) (hfuel : bound ≤ fuel) (f : F) :
+    (GetMatchedIndices O same fuel block f).outOfFuel = false ∧
+      (GetMatchedIndicesRef O fuel block f).outOfFuel = false :=
+  ⟨scan_fuel_ok O same block rank bound hA fuel hfuel f, scanRef_fuel_ok O block rank bound hA fuel hfuel f⟩
+
+/-! ### The repaired scan against the reference scan -/
+
+/-- `recheck_noop`: evaluating a transaction again on a filter its first evaluation left unchanged
+    returns the same verdict and filter. -/
+theorem C10_recheck_noop (f : F) (tx : Tx) (h : (matchTxAndUpdate O f tx).1 = f) :
+    matchTxAndUpdate O (matchTxAndUpdate O f tx).1 tx = matchTxAndUpdate O f tx := by
+  rw [h]
+
+/-- The skip in `checkFilterTx` is a no-op of the reference semantics: in any state `s` reached by the
+    repaired scan (`VInv`), with `Closed … s P` (every matching transaction checked at the current
+    version, except those on the call stack `P`, has all its dependants checked at the current
+    version), re-running the *reference* check on a transaction `k` whose `checkedAt` entry is the
+    current version changes neither the filter nor the matched list — provided it does not run out
+    of fuel. -/
+theorem C10_skip_noop (L : LawfulOn O G) (block : Array Tx) (inputs : Inputs)
+    (s : Scan F) (hv : VInv O block s) (P : List Nat) (hQ : Closed O block inputs s P)
+    (fuel k : Nat) (r : Scan F) (hfilter : r.filter = s.filter) (hmatched : r.matched = s.matched)
+    (hcur : s.checkedAt.lookup k = some s.version)
+    (hP : ∀ p ∈ P, ReachPlus O block inputs s.filter p k)
+    (hf : (checkFilterTxRef O block inputs fuel k r).outOfFuel = false) :
+    (checkFilterTxRef O block inputs fuel k r).filter = s.filter ∧
+      (checkFilterTxRef O block inputs fuel k r).matched = s.matched := by
+  have := ref_noop L block inputs s hv P hQ fuel k r ⟨hfilter, hmatched⟩ hcur hP hf
+  exact ⟨this.filter, this.matched⟩
+
+/-- **C10_scan_refines_ref** (full): on every block and loaded filter for which the reference scan
+    (re-check every dependant on every match) does not run out of fuel, the repaired scan with the
+    same fuel does not run out of fuel either and returns *the same final filter and the same
+    matched list*.  Hypotheses: the filter laws, and `SameSound O same`
+    (`same f f' = true` after insertions implies `f' = f`; implied by `∀ f f', same f f' = true → f' = f`).
+    No acyclicity assumption: if a skipped transaction were on the call stack, the reference scan
+    would be on a matching spend cycle and run out of fuel (`cycle_oof`). -/
+theorem C10_scan_refines_ref (L : LawfulOn O G) (same : F → F → Bool) (hs : SameSound O same)
+    (block : Array Tx) (fuel : Nat) (f : F)
+    (hf : (GetMatchedIndicesRef O fuel block f).outOfFuel = false) :
+    (GetMatchedIndices O same fuel block f).filter = (GetMatchedIndicesRef O fuel block f).filter ∧
+    (GetMatchedIndices O same fuel block f).matched = (GetMatchedIndicesRef O fuel block f).matched ∧
+    (GetMatchedIndices O same fuel block f).outOfFuel = false := by
+  obtain ⟨h, h'⟩ := scan_refines L hs block fuel f hf
+  exact ⟨h.filter.symm, h.matched.symm, h'⟩
+
+/-- A reference scan caught on a matching spend cycle never terminates, whatever the fuel. -/
+theorem C10_ref_cycle_diverges (L : LawfulOn O G) (block : Array Tx) (inputs : Inputs) (g : F) (x : Nat)
+    (hx : ReachPlus O block inputs g x x) (fuel : Nat) (r : Scan F)
+    (hg : ∀ y, O.test g y = true → O.test r.filter y = true) :
+    (checkFilterTxRef O block inputs fuel x r).outOfFuel = true :=
+  cycle_oof L block inputs g x hx fuel r hg
+
+/-- **C10_scan_steps** (full, no hypothesis at all): the repaired scan evaluates each transaction at
+    most once per filter version. -/
+theorem C10_scan_steps (same : F → F → Bool) (fuel : Nat) (block : Array Tx) (f : F) :
+    (GetMatchedIndices O same fuel block f).steps ≤
+      block.size * ((GetMatchedIndices O same fuel block f).version + 1) :=
+  scan_steps same fuel block f
+
+/-- **C10_scan_version**: if re-inserting an element the filter already matches changes nothing
+    (true of a bloom filter: all its bits are set) and `same` recognises an unchanged filter, the
+    final version is at most the total number of outputs in the block. -/
+theorem C10_scan_version (L : LawfulOn O G) (hidem : ∀ f x, O.test f x = true → O.add f x = f)
+    (same : F → F → Bool) (hrefl : ∀ f, same f f = true) (fuel : Nat) (block : Array Tx) (f : F) (hG : G f) :
+    (GetMatchedIndices O same fuel block f).version ≤ (block.toList.map (fun t => t.outs.length)).sum :=
+  scan_version L hidem same hrefl fuel block f hG
+
+/-- **C10_scan_steps**, polynomial form: at most `block.size * (number of outputs + 1)` evaluations. -/
+theorem C10_scan_steps_poly (L : LawfulOn O G) (hidem : ∀ f x, O.test f x = true → O.add f x = f)
+    (same : F → F → Bool) (hrefl : ∀ f, same f f = true) (fuel : Nat) (block : Array Tx) (f : F) (hG : G f) :
+    (GetMatchedIndices O same fuel block f).steps ≤
+      block.size * ((block.toList.map (fun t => t.outs.length)).sum + 1) :=
+  Nat.le_trans (scan_steps same fuel block f)
+    (Nat.mul_le_mul_left _ (Nat.succ_le_succ (scan_version L hidem same hrefl fuel block f hG)))
+
+/-! ### The real bloom filter
+`bloomOps` is the model of gcash/bchutil's `bloom.Filter` (`Bch/Model/Bloom.lean`, property C09),
+`bloomSame` the `bytes.Equal` test of `checkFilterTx`.  `bloomGood f` = loaded and at most 36000
+bytes (`MaxFilterLoadFilterSize`, enforced by the wire decoder). -/
+
+/-- the filter laws for the real bloom filter, from C09 (`bloom_add_matches`, `bloom_add_mono`) -/
+theorem C10_bloom_lawful : LawfulOn bloomOps bloomGood := bloom_lawful
+
+/-- `bytes.Equal` on the bit arrays is a sound change detector, it recognises an unchanged filter,
+    and re-inserting a matched element leaves the real filter unchanged -/
+theorem C10_bloom_same : SameSound bloomOps bloomSame ∧ (∀ f, bloomSame f f = true) ∧
+    (∀ f x, bloomOps.test f x = true → bloomOps.add f x = f) :=
+  ⟨bloom_sameSound, bloomSame_refl, bloom_add_idem⟩
+
+/-- `C10_match_iff` for the real filter — every filter state, loaded or not, any size -/
+theorem C10_bloom_match_iff (f : Bch.Model.Bloom.Filter) (tx : Tx) :
+    (matchTxAndUpdate bloomOps f tx).2 = true ↔ Relevant bloomOps f tx :=
+  matchTx_iff bloom_lawful f tx
+
+/-- soundness and completeness (a) of the block scan for the real filter — every filter state -/
+theorem C10_bloom_block_sound_complete (fuel : Nat) (hfuel : 0 < fuel) (block : Array Tx)
+    (f : Bch.Model.Bloom.Filter) :
+    (∀ i ∈ (GetMatchedIndices bloomOps bloomSame fuel block f).matched, i < block.size ∧
+      ∃ tx, block[i]? = some tx ∧
+        Relevant bloomOps (GetMatchedIndices bloomOps bloomSame fuel block f).filter tx) ∧
+    (∀ i tx, block[i]? = some tx → Relevant bloomOps f tx →
+      i ∈ (GetMatchedIndices bloomOps bloomSame fuel block f).matched) :=
+  ⟨fun i hi => C10_block_sound bloom_lawful bloomSame fuel block f i hi,
+   fun i tx hb hr => C10_block_complete_a bloom_lawful bloomSame fuel hfuel block f i tx hb hr⟩
+
+/-- completeness (b) for a loaded real filter within the wire limit: spenders of an eligible output,
+    with a push matching the loaded filter, of a reported transaction are reported, wherever they
+    stand in the block -/
+theorem C10_bloom_block_complete_spenders (m : Bch.Model.Bloom.Msg) (hm : m.bits.length ≤ 36000)
+    (fuel : Nat) (block : Array Tx)
+    (hf : (GetMatchedIndices bloomOps bloomSame fuel block (some m)).outOfFuel = false)
+    (j : Nat) (hj : j ∈ (GetMatchedIndices bloomOps bloomSame fuel block (some m)).matched)
+    (t : Tx) (hb : block[j]? = some t) (i : Nat) (o : TxOut) (ho : t.outs[i]? = some o)
+    (he : m.flags = 1 ∨ (m.flags = 2 ∧ o.isPubKeyOrMultisig = true))
+    (hp : ∃ ps, o.pushes = some ps ∧ ∃ d ∈ ps, Bch.Model.Bloom.Matches (some m) d = true)
+    (k : Nat) (u : Tx) (hu : block[k]? = some u)
+    (hsp : ∃ inp ∈ u.ins, inp.prevHash = t.id ∧ inp.prevIdx = i) :
+    k ∈ (GetMatchedIndices bloomOps bloomSame fuel block (some m)).matched :=
+  C10_block_complete_spenders bloom_lawful bloomSame bloom_sameSound fuel block (some m)
+    (bloomGood_some m hm) hf j hj t hb i o ho he hp k u hu hsp
+
+/-- the repaired scan refines the reference scan for the real filter — every filter state -/
+theorem C10_bloom_scan_refines_ref (block : Array Tx) (fuel : Nat) (f : Bch.Model.Bloom.Filter)
+    (hf : (GetMatchedIndicesRef bloomOps fuel block f).outOfFuel = false) :
+    (GetMatchedIndices bloomOps bloomSame fuel block f).filter = (GetMatchedIndicesRef bloomOps fuel block f).filter ∧
+    (GetMatchedIndices bloomOps bloomSame fuel block f).matched = (GetMatchedIndicesRef bloomOps fuel block f).matched ∧
+    (GetMatchedIndices bloomOps bloomSame fuel block f).outOfFuel = false :=
+  C10_scan_refines_ref bloom_lawful bloomSame bloom_sameSound block fuel f hf
+
+/-- polynomial step bound for a loaded real filter within the wire limit -/
+theorem C10_bloom_scan_steps_poly (m : Bch.Model.Bloom.Msg) (hm : m.bits.length ≤ 36000)
+    (fuel : Nat) (block : Array Tx) :
+    (GetMatchedIndices bloomOps bloomSame fuel block (some m)).steps ≤
+      block.size * ((block.toList.map (fun t => t.outs.length)).sum + 1) :=
+  C10_scan_steps_poly bloom_lawful bloom_add_idem bloomSame bloomSame_refl fuel block (some m)
+    (bloomGood_some m hm)
+
+/-! ### Non-vacuity: a toy filter (exact list membership) and small blocks
+`toyOps`: `F := List Bytes`, `test f x := f.contains x`, `add f x := x :: f`, flag 1;
+`toySetOps`: the same with insert-if-absent; `toyP2Ops`: flag 2.  `blk = #[txB, txA, txC]` where the
+child `txB` (spends `(txA, 0)`) is listed *before* its parent `txA`. -/
+section examples
+open Bch.Proofs.BloomTx.Toy
+
+-- the hypotheses are satisfiable
+example : LawfulFilter toyOps := toy_lawful
+example : LawfulOn toyOps (fun _ => True) := toy_lawful.on
+example : LawfulFilter toySetOps ∧ (∀ f x, toySetOps.test f x = true → toySetOps.add f x = f) ∧
+    (∀ f, toySame f f = true) := ⟨toySet_lawful, toySet_idem, toySame_refl⟩
+example : SameSound toyOps toySame := toy_sameSound _
+
+-- `blk` is acyclic with bound 3, so fuel 3 suffices
+example : (GetMatchedIndices toyOps toySame 3 blk [[7]]).outOfFuel = false :=
+  (C10_fuel_suffices toySame blk blkRank 3 toy_blk_acyclic 3 (Nat.le_refl _) _).1
+
+-- the child placed before its parent does not match the loaded filter …
+example : (matchTxAndUpdate toyOps [[7]] txB).2 = false := by decide
+-- … is not found when scanned on its own …
+example : (GetMatchedIndices toyOps toySame 5 #[txB] [[7]]).matched = [] := by decide
+-- … the parent matches and inserts its outpoint …
+example : matchTxAndUpdate toyOps [[7]] txA = ([[0xA, 0, 0, 0, 0], [7]], true) := by decide
+-- … and the block scan reports the child (index 0) through the re-check, and not the unrelated `txC`
+example : (GetMatchedIndices toyOps toySame 5 blk [[7]]).matched = [0, 1] := by decide
+example : (GetMatchedIndices toyOps toySame 5 blk [[7]]).filter = [[0xA, 0, 0, 0, 0], [7]] := by decide
+example : (GetMatchedIndices toyOps toySame 5 blk [[7]]).outOfFuel = false := by decide
+example : (GetMatchedIndices toyOps toySame 5 blk [[7]]).steps = 4 ∧
+    (GetMatchedIndices toyOps toySame 5 blk [[7]]).version = 1 := by decide
+
+-- the same fact obtained from the theorem (all hypotheses discharged on a concrete instance)
+example : 0 ∈ (GetMatchedIndices toyOps toySame 5 blk [[7]]).matched :=
+  C10_block_complete_spenders toy_lawful.on toySame (toy_sameSound _) 5 blk [[7]] trivial (by decide)
+    1 (by decide) txA rfl 0 _ rfl (Or.inl rfl) ⟨[[7]], rfl, [7], by simp, by decide⟩
+    0 txB rfl ⟨_, List.mem_cons_self, rfl, rfl⟩
+
+-- reference and repaired scan agree (here by evaluation; in general by `C10_scan_refines_ref`)
+example : (GetMatchedIndicesRef toyOps 5 blk [[7]]).outOfFuel = false := by decide
+example : (GetMatchedIndices toyOps toySame 5 blk [[7]]).matched = (GetMatchedIndicesRef toyOps 5 blk [[7]]).matched :=
+  (C10_scan_refines_ref toy_lawful.on toySame (toy_sameSound _) blk 5 [[7]] (by decide)).2.1
+
+-- with fuel 0 nothing is reported: `0 < fuel` in `C10_block_complete_a` is needed
+example : (GetMatchedIndices toyOps toySame 0 blk [[7]]).matched = [] ∧
+    (GetMatchedIndices toyOps toySame 0 blk [[7]]).outOfFuel = true := by decide
+
+-- `C10_update`: "matching at its turn" matters — output 1 of `txSelf` pushes the serialised outpoint of
+-- output 0 and matches only the filter as extended by output 0; under flag 2 only the
+-- pay-to-pubkey output 0 is eligible
+example : updIdxs toyOps [[7]] txSelf = [0, 1] := by decide
+example : updIdxs toyP2Ops [[7]] txSelf = [0] := by decide
+example : (matchTxAndUpdate toyP2Ops [[7]] txSelf).1 = [[0xE, 0, 0, 0, 0], [7]] := by decide
+
+-- the reported set is *not* invariant under permutation (and the theorems do not claim it): `txX`
+-- pushes the serialised outpoint `(txA, 0)` without spending it, so it is relevant only to a filter
+-- that already contains that outpoint
+example : (GetMatchedIndices toyOps toySame 5 #[txA, txX] [[7]]).matched = [1, 0] := by decide
+example : (GetMatchedIndices toyOps toySame 5 #[txX, txA] [[7]]).matched = [1] := by decide
+
+-- a child-first chain in which every transaction spends two outputs of its parent: 26 evaluations in
+-- the reference scan, 10 in the repaired one (bound: 4 * (4 + 1)); same result
+example : (GetMatchedIndicesRef toySetOps 9 chainBlkRev [[7]]).steps = 26 := by decide
+example : (GetMatchedIndices toySetOps toySame 9 chainBlkRev [[7]]).steps = 10 ∧
+    (GetMatchedIndices toySetOps toySame 9 chainBlkRev [[7]]).version = 4 := by decide
+example : (GetMatchedIndices toySetOps toySame 9 chainBlkRev [[7]]).matched =
+    (GetMatchedIndicesRef toySetOps 9 chainBlkRev [[7]]).matched := by decide
+
+-- a (hash-wise impossible) two-transaction spend cycle both of whose members match: the reference
+-- scan runs out of any fuel, the repaired scan terminates
+example : (GetMatchedIndicesRef toyOps 50 cycBlk [[1], [2]]).outOfFuel = true := by decide
+example : (GetMatchedIndices toyOps toySame 50 cycBlk [[1], [2]]).outOfFuel = false ∧
+    (GetMatchedIndices toyOps toySame 50 cycBlk [[1], [2]]).matched = [1, 0] := by decide
+-- a cyclic block on which the reference scan terminates is covered by `C10_scan_refines_ref`
+example : (GetMatchedIndicesRef toyOps 9 cycBlk [[1]]).outOfFuel = false := by decide
+
+-- the real bloom filter (4 bytes, 2 hash functions) on the child-before-parent block
+example : bloomF0 = some { bits := [3, 0, 0, 0], nHash := 2, tweak := 5, flags := 1 } := by decide
+example : bloomGood bloomF0 := ⟨rfl, by intro m hm; cases hm; decide⟩
+example : (matchTxAndUpdate bloomOps bloomF0 txB).2 = false := by decide
+example : (GetMatchedIndices bloomOps bloomSame 5 blk bloomF0).matched = [0, 1] ∧
+    (GetMatchedIndices bloomOps bloomSame 5 blk bloomF0).outOfFuel = false := by decide
+example : (GetMatchedIndices bloomOps bloomSame 5 blk bloomF0).filter =
+    some { bits := [3, 1, 0, 32], nHash := 2, tweak := 5, flags := 1 } := by decide
+
+end examples
+
 end Bch.Props.C10
